@@ -190,3 +190,18 @@ package fsloop
 //@   at_call (*Producer).processDir requires $0 == producer && $1 == cat(basePath, Name($v))
 //@   at_call dynamic.LoopData.DirFilter requires $0 == producer.loopData.Filespace && $1 == cat(basePath, Name($v))
 //@   at_call dynamic.LoopData.FileFilter requires $0 == producer.loopData.Filespace && $1 == cat(basePath, Name($v))
+
+// WalkFS visits every entry of the listing: it returns nil only after the whole listing has been
+// walked (an early return carries the error that caused it)
+//@ func WalkFS [C19]
+//@   layers contract trace
+//@   modifies *
+//@   requires fs != nil && fileFunc != nil
+//@   loop 1 invariant -1 <= $i && $i < len(infos)
+//@   loop 1 step $i == prev($i) + 1
+// a return with a nil error is the return behind the exhausted listing: since the last loop head
+// such a path has made no recursive call and no callback (an entry is never the last one by fiat)
+//@   trace WalkFS as RECURSE
+//@   trace dynamic.* as CALLBACK
+//@   trace_ensures err == nil : !RECURSE
+//@   trace_ensures err == nil : !CALLBACK
